@@ -1,5 +1,6 @@
 import ScriggoV.Model.Cancel
 import ScriggoV.Model.CancelDispatch
+import ScriggoV.Model.CancelFastPath
 import ScriggoV.Gen.Blocking
 /-! the cancellation facts of run.go as extracted (`Gen/Blocking.lean`), as a `Facts` record, and
 the placement of the flag test in the instruction loop as a `Dispatch` placement -/
@@ -44,5 +45,10 @@ def placementOfCode (c : Dispatch.Flow) : Bool :=
 program counter backwards or to another function (none, for the code as it is) -/
 def unobservedBackEdges : List String :=
   (opFlow.filter (fun o => !(flowOf o).forward && !opChecked o)).map (·.op)
+
+/-- some direct (uncancellable) channel call of run.go is guarded by something read from the
+channel or from anywhere but `done == nil` / the activation's own `hasDefaultCase` -/
+def racyFastPathOfCode : Bool :=
+  fastPathGuards.any (fun g => FastPath.guardOf g.2.2 == .observation)
 
 end ScriggoV.Cancel
